@@ -252,7 +252,8 @@ def tlc(module, cfg, scratch, workers=None, env=None, timeout=900, simulate=None
     jopts = ["-XX:+UseParallelGC", "-Xmx" + xmx, "-Xss16m", "-Djava.io.tmpdir=" + jtmp]
     if deque:
         jopts.append("-Dtlc2.tool.queue.IStateQueue=StateDeque")
-    cmd = ["java"] + jopts + ["-cp", TLC_JAR, "tlc2.TLC", "-workers", str(workers),
+    # (outer `timeout`: a TLC whose parent was killed must not live on)
+    cmd = ["timeout", "-k", "5", str(int(timeout) + 60), "java"] + jopts + ["-cp", TLC_JAR, "tlc2.TLC", "-workers", str(workers),
                               "-metadir", meta, "-config", cfg, "-noGenerateSpecTE"]
     if simulate:
         cmd += ["-simulate", simulate]
